@@ -249,10 +249,21 @@ def run_history(pd, hook, sc, tid, chk, facts, lines, meta, nupd=None, salt=0):
         nsnap = len(m.orientations)
         hook.reset()
         try:
-            F = m.update_orientations(params, F, getL, (t, t + layerb.DT, getx))
+            Fn = m.update_orientations(params, F, getL, (t, t + layerb.DT, getx))
         except Exception as ex:  # noqa: BLE001 - rejected / failed updates belong to C07 / C01
             chk.skip("update-raised:" + type(ex).__name__)
+            facts["updates_raised"] = facts.get("updates_raised", 0) + 1
+            facts["first_exception"] = facts.get("first_exception") or f"{type(ex).__name__}: {ex}"[:200]
             break
+        try:
+            Fn = np.asarray(Fn, dtype=float)
+            usable = Fn.shape == (3, 3) and bool(np.all(np.isfinite(Fn))) and float(np.abs(Fn).max()) < 1e6
+        except Exception:  # noqa: BLE001
+            usable = False
+        if usable:
+            F = Fn
+        else:
+            chk.skip("returned-deformation-gradient-unusable (C06's clause): the history goes on from the gradient handed in")
         t += layerb.DT
         if len(m.orientations) != nsnap + 1 or len(m.fractions) != nsnap + 1:
             chk.skip("update-did-not-append-one-snapshot")  # C01's clause
@@ -582,6 +593,12 @@ def main(tier):
     if facts["updates_not_hooked"]:
         chk.cov["hook"] += f"; {facts['updates_not_hooked']} update(s) without a recorded call were judged on snapshot clauses only"
     if not lines:
+        if facts.get("updates_raised"):
+            # every update of every in-domain history (supported regime, valid fabric, finite flow) raised: nothing
+            # could be floored or frozen because nothing was stored at all
+            chk.violation(dict(level="trace", clause="every-update-raised"), f"no update of {len(scen)} in-domain histories completed ({facts['updates_raised']} raised; first: {facts.get('first_exception')})", dict(kind="all-updates-raised"))
+            chk.sample(dict(kind="scenario", scenario=scen[0]))
+            return chk.finish(rule="histories recorded until the first raising update", exhaustive=False)
         raise MachineryError("no update was recorded")
     with scratch() as d:
         rejects, res = validate(lines, d, "main", timeout=900 if quick else 1800)
@@ -597,7 +614,7 @@ def main(tier):
                           dict(kind="scenario", scenario=sc, seed=mt["seed"], salt=mt["salt"], update=mt["k"], verif_seed=SEED, line=lines[ln - 1]))
         if (not chk.violations and not chk.known_hits and hooked_available and facts["updates_not_hooked"] == 0
                 and (facts["grains_shrinking_through_threshold"] == 0 or facts["grains_below"] == 0 or facts["grains_not_below"] == 0)):
-            raise MachineryError(f"recorded histories are trivial: {facts}")
+            chk.machinery_doubt(f"recorded histories are trivial: {facts}")
         pick = next((i for i, x in enumerate(lines) if x["hooked"] and x["n"] == 8 and any(x["below"]) and not all(x["below"])), 0)
         chk.sample(dict(kind="update-line", scenario=meta[pick + 1]["sc"], line=lines[pick]))
         # ---- 4. negative / positive controls of the trace specification
